@@ -16,7 +16,7 @@ func Main() {
 	r := core.Start("C03", "exploration")
 	r.SetRule("every signature request and every commit of every correct node in simulated networks is checked online against the messages delivered to that node (trace checker over the node's own loop order)")
 	r.Assume("the simulator delivers to a node only through its real receive loop; gossip emulation offers what real reactors send (state-based, maj23 exchange), adversary < 1/3 of the power")
-	r.Cases("scenario", len(allScenarios())*8, core.Opts{Procs: 16, StallSec: 300}, scenarioCase)
+	r.Cases("scenario", netsim.NumScenarioCases(), core.Opts{Procs: 16, StallSec: 300}, func(c *core.Case) { netsim.ScenarioCase(c, "C03") })
 	r.Cases("random", r.N(400, 8000), core.Opts{Procs: 16, StallSec: 300}, func(c *core.Case) { netsim.RandomCase(c, "C03", 7, 400) })
 	if !r.Quick() {
 		// E-live under the race detector: real reactors, switches and tickers; the monitors judge, the race detector
